@@ -441,14 +441,14 @@ def run(ctx):
     n_ex = 0
     if ok:
         for c in exhaustive_cases():
-            if ctx.quick and n_ex % 6 != ctx.seed % 6:      # quick tier: a sixth of the scope, rotating with the seed
+            if ctx.quick and n_ex % 24 != ctx.seed % 24:    # quick tier: 1/24 of the scope, rotating with the seed
                 n_ex += 1; continue
             n_ex += 1
             if not run_case(ctx, exe, c, stats=stats): ok = False; break
     ctx.notes["exhaustive_scope"] = "7^5 programs over {start,oneshot (2 signums),stop,raise,run} on one handle, then raise/run/run" + \
-                                    (" (1/6 sample in the quick tier)" if ctx.quick else "")
+                                    (" (1/24 sample in the quick tier)" if ctx.quick else "")
     if ok:
-        for i in range(ctx.scale(700, 15000)):
+        for i in range(ctx.scale(350, 15000)):
             c = gen_case(rng, big=(i % 5 == 0))
             if i == 0: ctx.sample({"program": c[:16]})
             if not run_case(ctx, exe, c, stats=stats): ok = False; break
@@ -461,7 +461,7 @@ def run(ctx):
         ctx.log("obligation broken; searching for a failing input with the monitors")
         srng = SplitMix(ctx.seed + 777)
         n = 0
-        for i in range(ctx.scale(14000, 60000)):
+        for i in range(ctx.scale(7000, 60000)):
             c = gen_case(srng, big=(i % 3 == 0), bias=srng.choice([3, 9, 15, 19]))
             n += 1
             if not run_case(ctx, exe, c, model=False):
